@@ -774,3 +774,51 @@ Proof.
   destruct (check_walk_safe _ _ _ 0 _ H) as [post [live' Ht]]. rewrite Hi in Ht.
   eexists. split; [exact Ht|]. eapply safe_trace_SInv; [|exact Ht]. apply FInv_SInv. apply init_FInv. exact Hc.
 Qed.
+
+(* ================= completeness of the first-fit judgement =================
+   Every transition the specification allows is accepted: the check raises no alarm on an allocator that
+   conforms to first fit (whatever its internal representation: only the canonical free list is compared). *)
+Lemma chunk_eqb_refl c : chunk_eqb c c = true.
+Proof. unfold chunk_eqb. destruct c as [a b]. cbn. rewrite !Z.eqb_refl. reflexivity. Qed.
+Lemma chunks_eqb_refl : forall a, chunks_eqb a a = true.
+Proof. induction a as [|c a IH]; [reflexivity|]. cbn. rewrite chunk_eqb_refl, IH. reflexivity. Qed.
+Lemma pow2b_complete a : is_pow2 a -> pow2b a = true.
+Proof.
+  intros [k [Hk E]]. subst a. unfold pow2b. pose proof (Z.pow_pos_nonneg 2 k ltac:(lia) Hk) as Hp.
+  rewrite Z.log2_pow2 by exact Hk. rewrite Z.eqb_refl. apply andb_true_intro. split; [apply Z.ltb_lt; exact Hp|reflexivity].
+Qed.
+Lemma find_region_complete : forall live r, In r live -> exists x, find_region (r_off r) (r_size r) live = Some x.
+Proof.
+  induction live as [|y live IH]; intros r H; [destruct H|]. cbn [find_region].
+  destruct ((r_off y =? r_off r) && (r_size y =? r_size r)) eqn:E; [exists y; reflexivity|].
+  destruct H as [H|H]; [subst y; rewrite !Z.eqb_refl in E; discriminate|]. apply IH. exact H.
+Qed.
+
+Theorem ff_stepb_complete pre live lost o ob post live' lost' :
+  ff_step (abs pre live lost) o ob (abs post live' lost') -> ff_stepb pre live o ob post = true.
+Proof.
+  destruct pre as [cap raw], post as [cap' raw']. unfold abs. cbn [fst snd]. intros H.
+  inversion H; subst; cbn [s_cap s_free s_live s_lost] in *; unfold ff_stepb; cbn [fst snd].
+  - (* general allocation *)
+    match goal with Hal : is_pow2 al |- _ => rewrite (pow2b_complete al Hal) end. cbn [andb].
+    unfold alloc_general. cbn [fst snd]. replace (cap + g - cap) with g by lia.
+    assert (E1 : (0 <=? size) && (cap <=? cap + g) && ((cap + g =? cap) || match scan (norm raw) size al with None => true | Some _ => false end) = true).
+    { apply andb_true_intro. split; [apply andb_true_intro; split; apply Z.leb_le; lia|].
+      destruct (Z.eq_dec g 0) as [G0|G0]; [subst g; replace (cap + 0 =? cap) with true by (symmetry; apply Z.eqb_eq; lia); reflexivity|].
+      match goal with Hg : 0 < g -> scan _ _ _ = None |- _ => rewrite (Hg ltac:(lia)) end. apply orb_true_r. }
+    rewrite E1. match goal with Hs : scan (grow_chunks _ _ _) _ _ = Some _ |- _ => rewrite Hs end. rewrite Z.eqb_refl, chunks_eqb_refl. reflexivity.
+  - (* zero-size allocation anywhere *)
+    match goal with Hal : is_pow2 al |- _ => rewrite (pow2b_complete al Hal) end. cbn [andb].
+    destruct (alloc_general _ _ 0 al off); [reflexivity|].
+    unfold alloc_zero. cbn [fst snd].
+    match goal with Hn : norm raw = norm raw' |- _ => rewrite <- Hn | Hn : norm raw' = norm raw |- _ => rewrite Hn end.
+    rewrite chunks_eqb_refl, !Z.eqb_refl.
+    match goal with Hm : off mod al = 0 |- _ => rewrite Hm end. cbn [Z.eqb].
+    replace (0 <=? off) with true by (symmetry; apply Z.leb_le; lia). replace (off <=? cap') with true by (symmetry; apply Z.leb_le; lia). reflexivity.
+  - (* free *)
+    match goal with Hin : In ?r live |- _ => destruct (find_region_complete live r Hin) as [x Hx]; rewrite Hx end.
+    rewrite Z.eqb_refl. match goal with Hn : norm raw' = _ |- _ => rewrite Hn | Hn : _ = norm raw' |- _ => rewrite <- Hn end. rewrite chunks_eqb_refl. reflexivity.
+  - (* grow *)
+    replace (0 <=? n) with true by (symmetry; apply Z.leb_le; lia). rewrite Z.eqb_refl.
+    match goal with Hn : norm raw' = _ |- _ => rewrite Hn | Hn : _ = norm raw' |- _ => rewrite <- Hn end. rewrite chunks_eqb_refl. reflexivity.
+Qed.
